@@ -6,7 +6,8 @@
    and the same for every admissible choice of white space and comments between the tokens. *)
 From NL.Model Require Import Lexer Parser.
 From NL.Spec Require Import Printer RenderSpec Layout.
-From NL.Proofs Require Import ParserFuel ParserTermination PrinterProofs PrinterFinal LexerProofs DecimalProofs.
+From NL.Proofs Require Import ParserTermination ParserFuel PrinterProofs PrinterFinal LexerProofs DecimalProofs
+  LayoutProofs.
 From Coq Require Import Lia.
 Open Scope Z_scope.
 
@@ -427,7 +428,351 @@ Proof.
   - apply (wide_trail_admissible u); assumption.
 Qed.
 
-(** * 3. Non-vacuity *)
+(** * 3. The same for every layout: redundant parentheses, optional separators, `anders als` chains *)
+
+Section TokensLay.
+  Variable u : unicode.
+  Variable show_f : float -> text.
+  Variable fok : float -> bool.
+
+  Let OKT := Forall (printable u).
+
+  Lemma okt_paren : forall ts, OKT ts -> OKT (paren ts).
+  Proof.
+    intros ts H. unfold paren. apply okt_fix; [ reflexivity | ].
+    apply Forall_app. split; [ exact H | apply okt_fix1; reflexivity ].
+  Qed.
+
+  Lemma okt_wrap : forall k ts, OKT ts -> OKT (wrap k ts).
+  Proof. induction k as [ | k IH]; intros ts H; [ exact H | cbn [wrap]; apply okt_paren; apply IH; exact H ]. Qed.
+
+  Lemma okt_opt_semi : forall c b cont, OKT (opt_semi c b cont).
+  Proof.
+    intros c b cont. unfold opt_semi. destruct (omit c && negb (sep_required b cont));
+      [ constructor | apply okt_fix1; reflexivity ].
+  Qed.
+
+  Lemma okt_opt_comma : forall c last cont, OKT (opt_comma c last cont).
+  Proof.
+    intros c last cont. unfold opt_comma.
+    destruct last; [ destruct (trail c) | destruct (omit c && negb cont) ];
+      try constructor; try (apply fix_printable; reflexivity); constructor.
+  Qed.
+
+  Definition OKE (e : expr) : Prop := forall lay p f, OKT (print_expr_lay show_f lay p f e).
+  Definition OKS (s : stmt) : Prop := forall lay cont, OKT (print_stmt_lay show_f lay cont s).
+
+  Lemma raw_to_expr_okt_lay : forall e,
+    (forall lay p f, OKT (print_raw_lay show_f lay p f e)) -> OKE e.
+  Proof.
+    intros e H lay p f. rewrite print_expr_lay_eq.
+    assert (Hm : forall p' f', OKT (print_min e (fun p0 f0 => print_raw_lay show_f lay p0 f0 e) p' f')).
+    { intros p' f'. unfold print_min. destruct (need_parens p' f' e); [ apply okt_paren | ]; apply H. }
+    destruct (extra (lay [])) as [ | k]; [ apply Hm | ].
+    cbn [with_extra]. apply okt_wrap. apply Hm.
+  Qed.
+
+  Lemma stmts_okt_lay : forall b,
+    Forall (fun s => wf_stmt fok s = true -> stmt_printable u show_f s = true ->
+                     forall lay cont, OKT (print_stmt_lay show_f lay cont s)) b ->
+    forallb (wf_stmt fok) b = true -> forallb (stmt_printable u show_f) b = true ->
+    forall ll, OKT (print_stmts_lay show_f ll b).
+  Proof.
+    intros b IH Hw Hp. pose proof (Forall_sub _ _ _ _ _ IH Hw Hp) as H. clear IH Hw Hp.
+    induction H as [ | s b' Hs Hb IH']; intro ll; [ constructor | ].
+    rewrite print_stmts_lay_cons. apply Forall_app. split; [ apply Hs | apply IH' ].
+  Qed.
+
+  Lemma block_okt_lay : forall b,
+    Forall (fun s => wf_stmt fok s = true -> stmt_printable u show_f s = true ->
+                     forall lay cont, OKT (print_stmt_lay show_f lay cont s)) b ->
+    forallb (wf_stmt fok) b = true -> forallb (stmt_printable u show_f) b = true ->
+    forall ll, OKT (print_block_lay show_f ll b).
+  Proof.
+    intros b IH Hw Hp ll. unfold print_block_lay. apply okt_fix; [ reflexivity | ].
+    apply Forall_app. split; [ apply stmts_okt_lay; assumption | apply okt_fix1; reflexivity ].
+  Qed.
+
+  Lemma list_okt_lay : forall es,
+    Forall (fun e => wf_expr fok e = true -> expr_printable u show_f e = true ->
+                     forall lay p f, OKT (print_expr_lay show_f lay p f e)) es ->
+    forallb (wf_expr fok) es = true -> forallb (expr_printable u show_f) es = true ->
+    forall ll, OKT (print_list_lay show_f ll es).
+  Proof.
+    intros es IH Hw Hp. pose proof (Forall_sub _ _ _ _ _ IH Hw Hp) as H. clear IH Hw Hp.
+    induction H as [ | e es' He Hes IH']; intro ll; [ constructor | ].
+    rewrite print_list_lay_cons. apply Forall_app. split; [ | apply IH' ].
+    apply Forall_app. split; [ apply He | apply okt_opt_comma ].
+  Qed.
+
+  Lemma params_okt_lay : forall ps, forallb (ident_ok u) ps = true ->
+    forall ll, OKT (print_params_lay ll ps).
+  Proof.
+    induction ps as [ | n ps IH]; intros H ll; [ constructor | ].
+    cbn [forallb] in H. apply andb_true_iff in H. destruct H as [H1 H2].
+    rewrite print_params_lay_cons. apply Forall_app. split; [ | apply IH; exact H2 ].
+    constructor; [ apply ident_ok_printable; exact H1 | apply okt_opt_comma ].
+  Qed.
+
+  Lemma oks_default : forall e, OKE e -> forall lay cont, OKT (print_sexpr_default show_f lay cont e).
+  Proof.
+    intros e H lay cont. unfold print_sexpr_default.
+    apply Forall_app. split; [ apply H | apply okt_opt_semi ].
+  Qed.
+
+  Lemma oks_plain : forall e, chain_view e = None -> OKE e -> OKE e /\ OKS (SExpr e).
+  Proof.
+    intros e Hv H. split; [ exact H | ]. intros lay cont. rewrite print_stmt_lay_expr, Hv.
+    apply oks_default. exact H.
+  Qed.
+
+  Theorem printed_lay_tokens_printable :
+    (forall e, wf_expr fok e = true -> expr_printable u show_f e = true -> OKE e /\ OKS (SExpr e)) /\
+    (forall s, wf_stmt fok s = true -> stmt_printable u show_f s = true -> OKS s).
+  Proof.
+    apply (tree_ind
+             (fun e => wf_expr fok e = true -> expr_printable u show_f e = true -> OKE e /\ OKS (SExpr e))
+             (fun s => wf_stmt fok s = true -> stmt_printable u show_f s = true -> OKS s)).
+    - (* infix *)
+      intros l o r IHl IHr Hw Hp. rewrite wf_infix in Hw. cbn [expr_printable] in Hp.
+      apply andb_true_iff in Hw. destruct Hw as [Hw Hwr].
+      apply andb_true_iff in Hw. destruct Hw as [Hw Hwl].
+      apply andb_true_iff in Hw. destruct Hw as [Hop _].
+      apply andb_true_iff in Hp. destruct Hp as [Hpl Hpr].
+      apply oks_plain; [ reflexivity | ].
+      apply raw_to_expr_okt_lay. intros lay p f. cbn [print_raw_lay]. cbv zeta.
+      apply Forall_app. split; [ apply (proj1 (IHl Hwl Hpl)) | ].
+      apply okt_fix; [ apply infix_tok_legal; exact Hop | apply (proj1 (IHr Hwr Hpr)) ].
+    - (* prefix *)
+      intros o r IHr Hw Hp. rewrite wf_prefix in Hw. cbn [expr_printable] in Hp.
+      apply andb_true_iff in Hw. destruct Hw as [Hop Hwr].
+      apply oks_plain; [ reflexivity | ].
+      apply raw_to_expr_okt_lay. intros lay p f. cbn [print_raw_lay]. cbv zeta.
+      apply okt_fix; [ apply prefix_tok_legal; exact Hop | apply (proj1 (IHr Hwr Hp)) ].
+    - (* int *)
+      intros z _ _. apply oks_plain; [ reflexivity | ].
+      apply raw_to_expr_okt_lay. intros lay p f. cbn [print_raw_lay].
+      constructor; [ apply int_printable | constructor ].
+    - (* float *)
+      intros x _ Hp. cbn [expr_printable] in Hp. apply oks_plain; [ reflexivity | ].
+      apply raw_to_expr_okt_lay. intros lay p f. cbn [print_raw_lay].
+      constructor; [ apply float_ok_printable; exact Hp | constructor ].
+    - (* bool *)
+      intros b _ _. apply oks_plain; [ reflexivity | ].
+      apply raw_to_expr_okt_lay. intros lay p f. cbn [print_raw_lay].
+      apply okt_fix1. destruct b; reflexivity.
+    - (* if none *)
+      intros c t IHc IHt Hw Hp. rewrite wf_if in Hw. cbn [expr_printable] in Hp.
+      apply andb_true_iff in Hw. destruct Hw as [Hw _].
+      apply andb_true_iff in Hw. destruct Hw as [Hwc Hwt].
+      apply andb_true_iff in Hp. destruct Hp as [Hp _].
+      apply andb_true_iff in Hp. destruct Hp as [Hpc Hpt].
+      apply oks_plain; [ reflexivity | ].
+      apply raw_to_expr_okt_lay. intros lay p f. cbn [print_raw_lay]. rewrite app_nil_r.
+      apply okt_fix; [ reflexivity | ]. apply Forall_app. split; [ apply (proj1 (IHc Hwc Hpc)) | ].
+      apply block_okt_lay; assumption.
+    - (* if some *)
+      intros c t a IHc IHt IHa Hw Hp. rewrite wf_if in Hw. cbn [expr_printable] in Hp.
+      apply andb_true_iff in Hw. destruct Hw as [Hw Hwa].
+      apply andb_true_iff in Hw. destruct Hw as [Hwc Hwt].
+      apply andb_true_iff in Hp. destruct Hp as [Hp Hpa].
+      apply andb_true_iff in Hp. destruct Hp as [Hpc Hpt].
+      assert (HE : OKE (EIf c t (Some a))).
+      { apply raw_to_expr_okt_lay. intros lay p f. cbn [print_raw_lay].
+        apply okt_fix; [ reflexivity | ]. apply Forall_app. split; [ apply (proj1 (IHc Hwc Hpc)) | ].
+        apply Forall_app. split; [ apply block_okt_lay; assumption | ].
+        apply okt_fix; [ reflexivity | ]. apply block_okt_lay; assumption. }
+      split; [ exact HE | ]. intros lay cont. rewrite print_stmt_lay_expr.
+      destruct a as [ | s2 a']; [ apply oks_default; exact HE | ].
+      destruct a' as [ | s3 a'']; [ | apply oks_default; exact HE ].
+      cbn [chain_view]. destruct (use_chain lay cont s2); [ | apply oks_default; exact HE ].
+      unfold print_chain_lay. apply okt_fix; [ reflexivity | ].
+      apply Forall_app. split; [ apply (proj1 (IHc Hwc Hpc)) | ].
+      apply Forall_app. split; [ apply block_okt_lay; assumption | ].
+      apply okt_fix; [ reflexivity | ].
+      inversion IHa as [ | x l Hs2 _]; subst.
+      cbn [forallb] in Hwa, Hpa. rewrite andb_true_r in Hwa, Hpa. apply (Hs2 Hwa Hpa).
+    - (* ident *)
+      intros s _ Hp. cbn [expr_printable] in Hp. apply oks_plain; [ reflexivity | ].
+      apply raw_to_expr_okt_lay. intros lay p f. cbn [print_raw_lay].
+      constructor; [ apply ident_ok_printable; exact Hp | constructor ].
+    - (* function *)
+      intros n ps body IHb Hw Hp. rewrite wf_function in Hw. cbn [expr_printable] in Hp.
+      apply andb_true_iff in Hp. destruct Hp as [Hp Hpb].
+      apply andb_true_iff in Hp. destruct Hp as [Hpn Hpp].
+      apply oks_plain; [ reflexivity | ].
+      apply raw_to_expr_okt_lay. intros lay p f. cbn [print_raw_lay].
+      apply okt_fix; [ reflexivity | ]. apply Forall_app. split.
+      + destruct n as [ | c n']; [ constructor | ].
+        constructor; [ apply ident_ok_printable; exact Hpn | constructor ].
+      + apply okt_fix; [ reflexivity | ]. apply Forall_app. split; [ apply params_okt_lay; exact Hpp | ].
+        apply okt_fix; [ reflexivity | ]. apply block_okt_lay; assumption.
+    - (* call *)
+      intros h args IHh IHargs Hw Hp. rewrite wf_call in Hw. cbn [expr_printable] in Hp.
+      apply andb_true_iff in Hw. destruct Hw as [Hw Hwa].
+      apply andb_true_iff in Hw. destruct Hw as [_ Hwh].
+      apply andb_true_iff in Hp. destruct Hp as [Hph Hpa].
+      apply oks_plain; [ reflexivity | ].
+      apply raw_to_expr_okt_lay. intros lay p f. cbn [print_raw_lay].
+      apply Forall_app. split; [ apply (proj1 (IHh Hwh Hph)) | ].
+      apply okt_fix; [ reflexivity | ]. apply Forall_app. split; [ | apply okt_fix1; reflexivity ].
+      apply list_okt_lay; [ | exact Hwa | exact Hpa ].
+      eapply Forall_impl; [ | exact IHargs ]. intros e He H1 H2. apply (proj1 (He H1 H2)).
+    - (* assign *)
+      intros l r IHl IHr Hw Hp. rewrite wf_assign in Hw. cbn [expr_printable] in Hp.
+      apply andb_true_iff in Hw. destruct Hw as [Hw Hwr].
+      apply andb_true_iff in Hw. destruct Hw as [_ Hwl].
+      apply andb_true_iff in Hp. destruct Hp as [Hpl Hpr].
+      apply oks_plain; [ reflexivity | ].
+      apply raw_to_expr_okt_lay. intros lay p f. cbn [print_raw_lay].
+      apply Forall_app. split; [ apply (proj1 (IHl Hwl Hpl)) | ].
+      apply okt_fix; [ reflexivity | apply (proj1 (IHr Hwr Hpr)) ].
+    - (* string *)
+      intros s _ _. apply oks_plain; [ reflexivity | ].
+      apply raw_to_expr_okt_lay. intros lay p f. cbn [print_raw_lay].
+      constructor; [ apply string_printable | constructor ].
+    - (* array *)
+      intros vs IHvs Hw Hp. rewrite wf_array in Hw. cbn [expr_printable] in Hp.
+      apply oks_plain; [ reflexivity | ].
+      apply raw_to_expr_okt_lay. intros lay p f. cbn [print_raw_lay].
+      apply okt_fix; [ reflexivity | ]. apply Forall_app. split; [ | apply okt_fix1; reflexivity ].
+      apply list_okt_lay; [ | exact Hw | exact Hp ].
+      eapply Forall_impl; [ | exact IHvs ]. intros e He H1 H2. apply (proj1 (He H1 H2)).
+    - (* index *)
+      intros b i IHb IHi Hw Hp. rewrite wf_index in Hw. cbn [expr_printable] in Hp.
+      apply andb_true_iff in Hw. destruct Hw as [Hw Hwi].
+      apply andb_true_iff in Hw. destruct Hw as [_ Hwb].
+      apply andb_true_iff in Hp. destruct Hp as [Hpb Hpi].
+      apply oks_plain; [ reflexivity | ].
+      apply raw_to_expr_okt_lay. intros lay p f. cbn [print_raw_lay].
+      apply Forall_app. split; [ apply (proj1 (IHb Hwb Hpb)) | ].
+      apply okt_fix; [ reflexivity | ]. apply Forall_app. split; [ apply (proj1 (IHi Hwi Hpi)) | ].
+      apply okt_fix1; reflexivity.
+    - (* while *)
+      intros c b IHc IHb Hw Hp. rewrite wf_while in Hw. cbn [expr_printable] in Hp.
+      apply andb_true_iff in Hw. destruct Hw as [Hwc Hwb].
+      apply andb_true_iff in Hp. destruct Hp as [Hpc Hpb].
+      apply oks_plain; [ reflexivity | ].
+      apply raw_to_expr_okt_lay. intros lay p f. cbn [print_raw_lay].
+      apply okt_fix; [ reflexivity | ]. apply Forall_app. split; [ apply (proj1 (IHc Hwc Hpc)) | ].
+      apply block_okt_lay; assumption.
+    - (* let *)
+      intros n e IHe Hw Hp lay cont. rewrite wf_let in Hw. cbn [stmt_printable] in Hp.
+      apply andb_true_iff in Hp. destruct Hp as [Hpn Hpe].
+      rewrite print_stmt_lay_let. apply okt_fix; [ reflexivity | ].
+      constructor; [ apply ident_ok_printable; exact Hpn | ].
+      apply okt_fix; [ reflexivity | ]. apply Forall_app. split; [ apply (proj1 (IHe Hw Hpe)) | ].
+      apply okt_opt_semi.
+    - (* return *)
+      intros e IHe Hw Hp lay cont. rewrite wf_return in Hw. cbn [stmt_printable] in Hp.
+      rewrite print_stmt_lay_return. apply okt_fix; [ reflexivity | ].
+      apply Forall_app. split; [ apply (proj1 (IHe Hw Hp)) | apply okt_opt_semi ].
+    - (* expr *)
+      intros e IHe Hw Hp. rewrite wf_sexpr in Hw. cbn [stmt_printable] in Hp.
+      apply (proj2 (IHe Hw Hp)).
+    - (* block *)
+      intros b IHb Hw Hp lay cont. rewrite wf_sblock in Hw. cbn [stmt_printable] in Hp.
+      rewrite print_stmt_lay_block. apply okt_fix; [ reflexivity | ].
+      apply Forall_app. split; [ apply stmts_okt_lay; assumption | ].
+      apply okt_fix; [ reflexivity | apply okt_opt_semi ].
+    - intros _ _ lay cont. rewrite print_stmt_lay_break. apply okt_fix; [ reflexivity | apply okt_opt_semi ].
+    - intros _ _ lay cont. rewrite print_stmt_lay_continue.
+      apply okt_fix; [ reflexivity | apply okt_opt_semi ].
+  Qed.
+
+  Theorem program_lay_tokens_printable : forall lay b,
+    wf_tree_gen fok b = true -> tree_printable u show_f b = true ->
+    Forall (printable u) (print_program_lay show_f lay b).
+  Proof.
+    intros lay b Hw Hp. destruct printed_lay_tokens_printable as [_ HS].
+    unfold print_program_lay. apply stmts_okt_lay; [ | exact Hw | exact Hp ].
+    apply Forall_forall. intros s _. exact (HS s).
+  Qed.
+End TokensLay.
+
+(* C07: white space, comments, redundant parentheses, optional `;` and `,` (where the grammar allows
+   leaving them out, or as trailing separators) and the `anders als` chain never change the tree.
+   General form: any layout oracle, any admissible separators. *)
+Theorem parse_render_print_lay_gen : forall u pf show_f fok lay b items trail,
+  (forall x, fok x = true -> pf (show_f x) = Some x) ->
+  wf_tree_gen fok b = true ->
+  map snd items = print_program_lay show_f lay b ->
+  admissible u None items -> trailgap u trail -> trail_admissible (last_tok None items) trail ->
+  parse u pf (render items trail) = Ok b.
+Proof.
+  intros u pf show_f fok lay b items trail Hf Hwf Hitems Ha Hg Ht.
+  unfold parse. rewrite (lex_render u items trail Ha Hg Ht). rewrite Hitems.
+  exact (parse_tokens_print_lay_gen pf show_f fok Hf lay b Hwf).
+Qed.
+
+Theorem parse_render_print_lay : forall u pf show_f lay b items trail,
+  wf_tree b = true -> (forall x, pf (show_f x) = Some x) ->
+  map snd items = print_program_lay show_f lay b ->
+  admissible u None items -> trailgap u trail -> trail_admissible (last_tok None items) trail ->
+  parse u pf (render items trail) = Ok b.
+Proof.
+  intros u pf show_f lay b items trail Hwf Hf.
+  exact (parse_render_print_lay_gen u pf show_f (fun _ => true) lay b items trail (fun x _ => Hf x) Hwf).
+Qed.
+
+(* one space between consecutive tokens *)
+Theorem parse_render_spaces_lay_gen : forall u pf show_f fok lay b,
+  (forall x, fok x = true -> pf (show_f x) = Some x) ->
+  wf_tree_gen fok b = true -> tree_printable u show_f b = true ->
+  parse u pf (render_spaces (print_program_lay show_f lay b)) = Ok b.
+Proof.
+  intros u pf show_f fok lay b Hf Hwf Hp. unfold parse.
+  rewrite (lex_render_spaces u _ (program_lay_tokens_printable u show_f fok lay b Hwf Hp)).
+  exact (parse_tokens_print_lay_gen pf show_f fok Hf lay b Hwf).
+Qed.
+
+Theorem parse_render_spaces_lay : forall u pf show_f lay b,
+  wf_tree b = true -> tree_printable u show_f b = true ->
+  (forall x, pf (show_f x) = Some x) ->
+  parse u pf (render_spaces (print_program_lay show_f lay b)) = Ok b.
+Proof.
+  intros u pf show_f lay b Hwf Hp Hf.
+  exact (parse_render_spaces_lay_gen u pf show_f (fun _ => true) lay b (fun x _ => Hf x) Hwf Hp).
+Qed.
+
+Theorem parse_render_spaces_lay_nofloat : forall u pf show_f lay b,
+  wf_tree_nofloat b = true -> tree_printable u show_f b = true ->
+  parse u pf (render_spaces (print_program_lay show_f lay b)) = Ok b.
+Proof.
+  intros u pf show_f lay b Hwf Hp.
+  refine (parse_render_spaces_lay_gen u pf show_f (fun _ => false) lay b _ Hwf Hp).
+  intros x Hx. discriminate Hx.
+Qed.
+
+(* any layout, any non-empty white space / comments between the tokens *)
+Theorem parse_render_wide_lay : forall u pf show_f fok lay b seps trail,
+  (forall x, fok x = true -> pf (show_f x) = Some x) ->
+  wf_tree_gen fok b = true -> tree_printable u show_f b = true ->
+  Forall (wide_sep u) seps -> S (length seps) = length (print_program_lay show_f lay b) ->
+  trailgap u trail -> match trail with c :: _ => sep_char u c = true | [] => True end ->
+  parse u pf (render (sep_items seps (print_program_lay show_f lay b)) trail) = Ok b.
+Proof.
+  intros u pf show_f fok lay b seps trail Hf Hwf Hp Hs Hl Hg Ht.
+  pose proof (program_lay_tokens_printable u show_f fok lay b Hwf Hp) as Hpr.
+  destruct (print_program_lay show_f lay b) as [ | t r] eqn:E; [ discriminate Hl | ].
+  cbn [length] in Hl. injection Hl as Hl. inversion Hpr as [ | x l Hpt Hpr']; subst.
+  eapply (parse_render_print_lay_gen u pf show_f fok lay b); [ exact Hf | exact Hwf | | | exact Hg | ].
+  - rewrite E. cbn [sep_items map snd]. f_equal. apply map_snd_combine. exact Hl.
+  - cbn [sep_items admissible]. split; [ constructor | ]. split; [ exact Hpt | ].
+    split; [ exact I | ]. apply wide_admissible; assumption.
+  - apply (wide_trail_admissible u); assumption.
+Qed.
+
+(* two texts that differ only in layout and in white space denote the same tree *)
+Corollary layout_irrelevant : forall u pf show_f lay1 lay2 b,
+  wf_tree b = true -> tree_printable u show_f b = true -> (forall x, pf (show_f x) = Some x) ->
+  parse u pf (render_spaces (print_program_lay show_f lay1 b))
+  = parse u pf (render_spaces (print_program_lay show_f lay2 b)).
+Proof.
+  intros u pf show_f lay1 lay2 b Hwf Hp Hf. rewrite !parse_render_spaces_lay by assumption. reflexivity.
+Qed.
+
+(** * 4. Non-vacuity *)
 
 Section Examples.
   Definition ex_a : expr := EIdent (str_cps "a").
@@ -512,6 +857,30 @@ Section Examples.
       [ intros x Hx; discriminate Hx | reflexivity | reflexivity | exact H1 | exact H2 | exact H3
       | reflexivity ].
   Qed.
+  (* layouts: the tree LayoutProofs.ex_lay_tree written plainly, with as little as possible, and with
+     redundant parentheses and trailing commas; the three texts denote the same tree *)
+  Definition ex_greedy : layout := fun _ => mkChoice 0 true false true.
+
+  Example ex_lay_texts :
+    render_spaces (print_program (fun _ => []) ex_lay_tree)
+    = str_cps "stel x = ( - a ) * ( b - ( a - b ) ) ; als ! a == b { antwoord f ( 1 , [ a , b ] ) ; } anders { als b { stop ; } anders { als a { volgende ; } ; } ; } ; - a ; functie ( x , y ) { a ; [ a ] ; } ( a , - b , a [ b ] ) ;"
+    /\ render_spaces (print_program_lay (fun _ => []) ex_greedy ex_lay_tree)
+    = str_cps "stel x = ( - a ) * ( b - ( a - b ) ) als ! a == b { antwoord f ( 1 , [ a b ] ) } anders { als b { stop } anders als a { volgende } } ; - a functie ( x y ) { a ; [ a ] } ( a , - b a [ b ] )"
+    /\ render_spaces (print_program_lay (fun _ => []) ex_wild ex_lay_tree)
+    = str_cps "stel x = ( ( ( - a ) ) * ( ( b - ( a - b ) ) ) ) ; ( als ( ( ! a == b ) ) { antwoord f ( 1 , [ a b , ] , ) } anders { als b { stop } anders als a { volgende } } ) ; ( - ( ( a ) ) ) ; ( ( ( functie ( x y , ) { a ; [ a , ] } ) ) ( a , - b a [ b ] , ) )".
+  Proof. repeat split; vm_compute; reflexivity. Qed.
+
+  Example ex_lay_text_hyps :
+    wf_tree_nofloat ex_lay_tree = true /\ tree_printable u0 (fun _ => []) ex_lay_tree = true.
+  Proof. split; vm_compute; reflexivity. Qed.
+
+  Example ex_lay_text_roundtrip :
+    parse u0 (fun _ => None) (render_spaces (print_program_lay (fun _ => []) ex_greedy ex_lay_tree))
+      = Ok ex_lay_tree /\
+    parse u0 (fun _ => None) (render_spaces (print_program_lay (fun _ => []) ex_wild ex_lay_tree))
+      = Ok ex_lay_tree.
+  Proof. split; vm_compute; reflexivity. Qed.
+
 End Examples.
 
 Print Assumptions printed_tokens_printable.
@@ -521,3 +890,11 @@ Print Assumptions parse_render_spaces.
 Print Assumptions parse_render_spaces_nofloat.
 Print Assumptions parse_render_print.
 Print Assumptions parse_render_wide.
+Print Assumptions printed_lay_tokens_printable.
+Print Assumptions parse_render_print_lay_gen.
+Print Assumptions parse_render_print_lay.
+Print Assumptions parse_render_spaces_lay_gen.
+Print Assumptions parse_render_spaces_lay.
+Print Assumptions parse_render_spaces_lay_nofloat.
+Print Assumptions parse_render_wide_lay.
+Print Assumptions layout_irrelevant.
